@@ -1337,15 +1337,22 @@ class Interp:
             return _Super(self._fi_stack[-1].cls, frame.get("__self__", "self"))
         if recv is None and meth == "type" and len(args) == 1 and not isinstance(args[0], (Residual, Obj)):
             return Residual(type(args[0]).__name__)
+        # getattr(x, "name") with a name known here is the attribute x.name (property getters and all)
+        if (recv is None and meth == "getattr" and len(args) == 2 and isinstance(args[1], str) and isinstance(args[0], (Residual, Obj, NTV)) and "getattr" not in frame
+                and dotted(e.args[0]) is not None):
+            syn = ast.Attribute(value=e.args[0], attr=args[1], ctx=ast.Load())
+            ast.copy_location(syn, e)
+            return self.eval(syn, frame)
         # getattr(x, "name") on a symbolic object with a constant name is the attribute x.name
         if recv is None and meth == "getattr" and len(args) >= 2 and isinstance(args[0], Residual) and isinstance(args[1], str):
             k = f"{args[0].text}.{args[1]}"
             ok, v = self.lookup(k)
             return v if ok else Residual(k)
-        if recv is None and meth == "setattr" and len(args) == 3 and isinstance(args[0], Residual) and isinstance(args[1], str) and meth not in frame:
-            k = f"{args[0].text}.{args[1]}"
-            self.store[k] = args[2]
-            self.path.trace.append(("set", k, args[2]))
+        if recv is None and meth == "setattr" and len(args) == 3 and isinstance(args[0], (Residual, Obj)) and isinstance(args[1], str) and meth not in frame and dotted(e.args[0]) is not None:
+            # setattr(x, "name", v) with a name known here is the assignment x.name = v (property setters and all)
+            syn = ast.Attribute(value=e.args[0], attr=args[1], ctx=ast.Store())
+            ast.copy_location(syn, e)
+            self.assign(syn, args[2], frame)
             return None
         # reflection with a constant name on an abstract object: the same store the attribute syntax uses
         if recv is None and meth in ("getattr", "hasattr", "setattr") and len(args) >= 2 and isinstance(args[0], Obj) and isinstance(args[1], str):
